@@ -87,6 +87,7 @@ func TestVfC10Rules(t *testing.T) {
 	defer vfkit.Flush()
 	rapid.Check(t, func(t *rapid.T) {
 		block := NextIPBlock()
+		defer FreeIPBlock(block)
 		pip := block + "1"
 		nUp := rapid.IntRange(1, 3).Draw(t, "nUpstreams")
 		var ups []*FakeUpstream
@@ -325,18 +326,19 @@ func TestVfC10BadConfig(t *testing.T) {
 	defer vfkit.Flush()
 	rapid.Check(t, func(t *rapid.T) {
 		block := NextIPBlock()
+		defer FreeIPBlock(block)
 		pip := block + "1"
 		cfg := &Config{Servers: StdServers(pip, []string{"udp", "tcp"}, ""),
-			Upstreams:  []UpstreamCfg{{Tag: "u1", Addr: "udp://" + block + "2:53"}, {Tag: "u2", Addr: "tcp://" + block + "2:53"}},
-			DomainSets: []DomainSet{{Tag: "s1", Files: []string{"$DIR/a.txt"}}, {Tag: "s2", Files: []string{}}},
-			Rules:      []Rule{{Domain: "s1", Forward: "u1"}, {Domain: "s2", Reject: 3}, {Forward: "u2"}},
+			Upstreams:  []UpstreamCfg{{Tag: "Up-One", Addr: "udp://" + block + "2:53"}, {Tag: "u2", Addr: "tcp://" + block + "2:53"}},
+			DomainSets: []DomainSet{{Tag: "Set-One", Files: []string{"$DIR/a.txt"}}, {Tag: "s2", Files: []string{}}},
+			Rules:      []Rule{{Domain: "Set-One", Forward: "Up-One"}, {Domain: "s2", Reject: 3}, {Forward: "u2"}},
 			Cache:      &CacheCfg{MemSize: 1 << 20},
 			Limiter:    &LimiterCfg{Client: &ClientLimiterCfg{Limit: 1000}},
 		}
 		files := map[string]string{"a.txt": "example.com\n"}
 		kind0 := ""
 		// the valid base: a drawn rule list (conditional and unconditional rules in any order), then one mutation
-		templates := []Rule{{Domain: "s1", Forward: "u1"}, {Domain: "s2", Reject: 3}, {Forward: "u2"}, {Reject: 2}, {Domain: "s1", Forward: "u2"}}
+		templates := []Rule{{Domain: "Set-One", Forward: "Up-One"}, {Domain: "s2", Reject: 3}, {Forward: "u2"}, {Reject: 2}, {Domain: "Set-One", Forward: "u2"}}
 		nRules := rapid.IntRange(1, 5).Draw(t, "nRules")
 		cfg.Rules = nil
 		for i := 0; i < nRules; i++ {
@@ -365,30 +367,30 @@ func TestVfC10BadConfig(t *testing.T) {
 		yml := ""
 		switch kind {
 		case "unknown-upstream":
-			insert(Rule{Domain: rapid.SampledFrom([]string{"", "s1", "s2"}).Draw(t, "badRuleDomain"), Forward: "nope"})
+			insert(Rule{Domain: rapid.SampledFrom([]string{"", "Set-One", "s2"}).Draw(t, "badRuleDomain"), Forward: "nope"})
 		case "unknown-set":
 			bad := Rule{Domain: "nope"}
 			switch rapid.IntRange(0, 2).Draw(t, "badRuleAction") {
 			case 0:
-				bad.Forward = "u1"
+				bad.Forward = "Up-One"
 			case 1:
 				bad.Reject = 3
 			}
 			insert(bad)
 		case "dup-upstream":
-			cfg.Upstreams[1].Tag = "u1"
-			retag("u2", "u1")
+			cfg.Upstreams[1].Tag = "Up-One"
+			retag("u2", "Up-One")
 		case "dup-set":
-			cfg.DomainSets[1].Tag = "s1"
-			retag("s2", "s1")
+			cfg.DomainSets[1].Tag = "Set-One"
+			retag("s2", "Set-One")
 		case "missing-tag":
 			cfg.Upstreams[1].Tag = ""
-			retag("u2", "u1")
+			retag("u2", "Up-One")
 		case "missing-addr":
 			cfg.Upstreams[1].Addr = ""
 		case "missing-set-tag":
 			cfg.DomainSets[1].Tag = ""
-			retag("s2", "s1")
+			retag("s2", "Set-One")
 		case "unknown-key":
 			var tree map[string]any
 			if err := yaml.Unmarshal([]byte(cfg.YAML()), &tree); err != nil {
